@@ -34,6 +34,7 @@ EXTENDS Integers, Sequences, FiniteSets, TLC, Json
 CONSTANTS Nodes, MaxH, MaxSteps, MaxRestart,
           OperatorFollows,   \* TRUE: only behaviours in which the operator follows the protocol are generated
           InitKeys,          \* keys stored on every node at the start ("none": setKeys is part of the behaviours)
+          Focus,             \* TRUE: only the steps of a hand-over (no key changes, probes, headers as info); dumps only behaviours that generated on two nodes
           DumpEvery
 
 VARIABLES chain, have, keys, ginfo, present, enabled, note, signed, followed, forgedAt, script
@@ -67,7 +68,9 @@ EnableResult(n, i) ==
   ELSE IF ~present[n] /\ i # NoInfo THEN "no-previous"
   ELSE "ok"
 
-Infos == {NoInfo, note} \cup {ginfo[m] : m \in Nodes} \cup signed
+\* what an operator can know: nothing, what the last getStatus said, any header the validator signed (they are public)
+Infos == {NoInfo, note} \cup signed
+Src(i) == IF i = NoInfo THEN "zero" ELSE IF i = note THEN "note" ELSE "signed"
 Others(n) == Nodes \ {n}
 Steps == Len(script)
 
@@ -120,7 +123,7 @@ SetStatus(n, i) ==
   /\ ginfo' = [ginfo EXCEPT ![n] = i] /\ present' = [present EXCEPT ![n] = TRUE]
   \* rewriting the info of a node that generates is only harmless with the latest info
   /\ followed' = (followed /\ (enabled[n] => i = Latest))
-  /\ script' = Append(script, [op |-> "setstatus", n |-> n, info |-> i])
+  /\ script' = Append(script, [op |-> "setstatus", n |-> n, info |-> i, src |-> Src(i)])
   /\ UNCHANGED <<chain, have, keys, enabled, note, signed, forgedAt>>
 
 Enable(n, i) ==
@@ -131,8 +134,20 @@ Enable(n, i) ==
                /\ enabled' = [enabled EXCEPT ![n] = TRUE]
                /\ followed' = (followed /\ i = Latest /\ \A m \in Others(n) : ~enabled[m])
           ELSE UNCHANGED <<ginfo, present, enabled, followed>>
-       /\ script' = Append(script, [op |-> "enable", n |-> n, info |-> i, res |-> r])
+       /\ script' = Append(script, [op |-> "enable", n |-> n, info |-> i, src |-> Src(i), res |-> r])
   /\ UNCHANGED <<chain, have, keys, note, signed, forgedAt>>
+
+\* updateStatus with a wrong password for encrypted keys: refused before anything else is looked at
+EnableBadPw(n) ==
+  /\ Steps < MaxSteps /\ keys[n] = "enc"
+  /\ script' = Append(script, [op |-> "enable-badpw", n |-> n, res |-> "bad-password"])
+  /\ UNCHANGED <<chain, have, keys, ginfo, present, enabled, note, signed, followed, forgedAt>>
+
+\* the validator's slot passes on a node where generation is not enabled: no block
+Idle(n) ==
+  /\ Steps < MaxSteps /\ ~enabled[n] /\ have[n] = Len(chain)
+  /\ script' = Append(script, [op |-> "idle", n |-> n])
+  /\ UNCHANGED <<chain, have, keys, ginfo, present, enabled, note, signed, followed, forgedAt>>
 
 Disable(n) ==
   /\ Steps < MaxSteps /\ keys[n] # "none"
@@ -152,9 +167,10 @@ Restart(n) ==
 
 Step ==
   \E n \in Nodes :
-    \/ \E t \in {"plain", "enc"} : SetKeys(n, t)
+    \/ ~Focus /\ \E t \in {"plain", "enc"} : SetKeys(n, t)
+    \/ ~Focus /\ (Idle(n) \/ EnableBadPw(n))
     \/ Other(n) \/ Catch(n) \/ Forge(n) \/ GetStatus(n) \/ Disable(n) \/ Restart(n)
-    \/ \E i \in Infos : SetStatus(n, i) \/ Enable(n, i)
+    \/ \E i \in (IF Focus THEN {NoInfo, note} ELSE Infos) : SetStatus(n, i) \/ Enable(n, i)
 
 \* with OperatorFollows only steps that keep the history flag are taken
 Next == Step /\ (OperatorFollows => followed')
@@ -173,6 +189,6 @@ HandoverReached == Cardinality(forgedAt) < 2
 
 HView == <<chain, have, keys, ginfo, present, enabled, note, signed, followed, forgedAt, Len(script), NRestart>>
 DumpInv ==
-  (DumpEvery > 0 /\ (Len(script) = MaxSteps \/ ~ENABLED Next) /\ RandomElement(1..DumpEvery) = 1)
-    => PrintT(<<"DUMP", ToJson([script |-> script])>>)
+  (DumpEvery > 0 /\ (Len(script) = MaxSteps \/ ~ENABLED Next) /\ (Focus => Cardinality(forgedAt) = 2) /\ RandomElement(1..DumpEvery) = 1)
+    => PrintT(<<"DUMP", ToJson([script |-> script, followed |-> followed])>>)
 =============================================================================
